@@ -1,8 +1,8 @@
 (** Property C09: subcommand dispatch follows argv, and global arguments agree at every level.
-    This file contains only the pinned statements; proofs live in ParseProofs/{Globals,Dispatch,Chain}.v. *)
+    This file contains only the pinned statements; proofs live in ParseProofs/{Globals,Dispatch,Chain,ChainWide}.v. *)
 From ClapModel Require Import Base.Bytes Base.Machine Base.Utf8 Lex.OsStrExtModel.
 From ClapModel Require Import Parse.Cmd Parse.Build Parse.Valid Parse.Matcher Parse.Errors Parse.Validator Parse.Parser.
-From ClapModel Require Import ParseProofs.Globals ParseProofs.Dispatch ParseProofs.Chain.
+From ClapModel Require Import ParseProofs.Globals ParseProofs.Dispatch ParseProofs.Chain ParseProofs.ChainWide.
 From Coq Require Import ZArith.
 From RecordUpdate Require Import RecordSet.
 Import RecordSetNotations.
@@ -360,3 +360,126 @@ Theorem C09_chain_globals : forall c0 toks names ext m',
          (m_source e0 = Some SCmdLine -> m_source e = Some SCmdLine)).
 Proof. exact do_parse_gline. Qed.
 Print Assumptions C09_chain_globals.
+
+(** ** third pass (ParseProofs/ChainWide.v): positionals, inference, `--`, the class [wline] *)
+
+(** one value token of a positional argument, in state ValuesDone or while the same positional collects
+    values ([PSPos]): [plain_tok] = not `--`, not a long, not a short; [takes_at] = the positional at the
+    counter is not `last`/trailing-var-arg, the token is not its terminator, the counter needs no
+    correction ([pos_plain]: no low-index multiples, no allow_missing_positional); the token is not read
+    as a subcommand in that state.  The loop pushes the token ([pos_push]) and goes on: counter + 1 for a
+    single-valued positional, state [PSPos] for a multi-valued one *)
+Theorem C09_positional_step : forall c pst tok a rest pos vaf st,
+  match pst with PSOpt _ => False | _ => True end ->
+  (if is_set s_sub_precedence c || match pst with PSValuesDone => true | _ => false end
+   then possible_subcommand c tok vaf else None) = None ->
+  plain_tok tok -> takes_at c pos a tok ->
+  parse_loop c (tok :: rest) (mkL pst pos vaf false) st =
+  (do st' <- pos_push c a tok st; parse_loop c rest (after_pos a pos) st').
+Proof. exact loop_pos_step. Qed.
+Print Assumptions C09_positional_step.
+
+(** class [pitems c pos pre F pos']: [pre] consists of the option items of [prefix_ok] AND values of
+    single-valued positionals (each becomes the pending occurrence, as `--opt v` does: [sep_fn … IIndex]);
+    the loop consumes it item by item and reaches the next token in state ValuesDone with the counter
+    advanced by the number of positional values *)
+Theorem C09_loop_positionals : forall c pos pre F pos', pitems c pos pre F pos' ->
+  forall rest vaf st, fs_skip st = 0 ->
+  parse_loop c (pre ++ rest) (lsV pos vaf) st =
+  (do st' <- F st; parse_loop c rest (lsV pos' (vaf || negb (is_nil pre))) st').
+Proof. exact loop_pitems. Qed.
+Print Assumptions C09_loop_positionals.
+
+(** a multi-valued positional ([multi_vals]: the first value is not a subcommand; the further values are
+    plain words — with [subcommand_precedence_over_arg] on THIS level none of them a subcommand, without it
+    ANY plain word): every value is pushed, the loop stays in state [PSPos] *)
+Theorem C09_multi_positional : forall c pos a v1 vs, multi_vals c pos a v1 vs -> forall rest vaf st,
+  parse_loop c ((v1 :: vs) ++ rest) (lsV pos vaf) st =
+  (do st' <- push_all c a (v1 :: vs) st; parse_loop c rest (mkL (PSPos (a_id a)) pos true false) st').
+Proof. exact loop_multi. Qed.
+Print Assumptions C09_multi_positional.
+
+(** … so without the setting a subcommand NAME behind the values is swallowed as one more value … *)
+Theorem C09_multi_positional_swallows_name : forall c pos a v1 vs tok,
+  multi_vals c pos a v1 vs -> is_set s_sub_precedence c = false ->
+  plain_tok tok -> takes_at c pos a tok ->
+  forall rest vaf st,
+  parse_loop c ((v1 :: vs) ++ tok :: rest) (lsV pos vaf) st =
+  (do st' <- push_all c a ((v1 :: vs) ++ [tok]) st; parse_loop c rest (mkL (PSPos (a_id a)) pos true false) st').
+Proof. exact multi_swallows_name. Qed.
+Print Assumptions C09_multi_positional_swallows_name.
+
+(** … and with the setting (read from the level the positional belongs to) it dispatches *)
+Theorem C09_multi_positional_precedence : forall c pos a v1 vs tok n,
+  multi_vals c pos a v1 vs -> is_set s_sub_precedence c = true -> nsel c tok n ->
+  is_set s_args_negate_subs c = false ->
+  forall rest vaf st,
+  parse_loop c ((v1 :: vs) ++ tok :: rest) (lsV pos vaf) st =
+  (do st' <- push_all c a (v1 :: vs) st; ROk (LSub n false true st' rest)).
+Proof. exact multi_then_name. Qed.
+Print Assumptions C09_multi_positional_precedence.
+
+(** selection by name, closed form of [possible_subcommand] ([nsel]: exact name/alias without inference;
+    with [infer_subcommands] the only element of [infer_list]; or an exact name/alias when the inference
+    finds none or several): the loop dispatches wherever it looks for subcommands *)
+Theorem C09_name_selection : forall c tok n, nsel c tok n -> is_set s_args_negate_subs c = false ->
+  forall pst, (is_set s_sub_precedence c || match pst with PSValuesDone => true | _ => false end) = true ->
+  forall rest pos vaf st,
+  parse_loop c (tok :: rest) (mkL pst pos vaf false) st = ROk (LSub n false vaf st rest).
+Proof. exact nsel_loop. Qed.
+Print Assumptions C09_name_selection.
+
+(** inference: when exactly one subcommand has a name or alias starting with [tok], what the loop selects
+    ([n]: that name, or the TEXT OF THE ALIAS) resolves to that subcommand [sc0] and to no other — so the
+    chain records its canonical name [c_name sc0] ([C09_chain_wide]) *)
+Theorem C09_infer_unique_target : forall c tok n, infer_list c tok = [n] ->
+  exists sc0, find_subcommand c n = Some sc0 /\ In sc0 (c_subs c) /\ sub_matches tok sc0 = true /\
+    aliases_to sc0 n = true /\ is_prefix tok n = true /\
+    (forall s, In s (c_subs c) -> sub_matches tok s = true -> s = sc0).
+Proof. exact infer_unique_target. Qed.
+Print Assumptions C09_infer_unique_target.
+
+(** an ambiguous prefix (two or more subcommands match, [tok] is no exact name or alias) never dispatches … *)
+Theorem C09_infer_ambiguous_not_dispatched : forall c tok,
+  is_set s_infer_sub c = true -> (2 <= length (infer_list c tok))%nat -> find_subcommand c tok = None ->
+  forall vaf, possible_subcommand c tok vaf = None.
+Proof. exact infer_ambiguous_no_sub. Qed.
+Print Assumptions C09_infer_ambiguous_not_dispatched.
+
+(** … and in a command without positionals and external subcommands it is rejected as InvalidSubcommand *)
+Theorem C09_infer_ambiguous_rejected : forall c tok rest pos vaf st,
+  is_set s_infer_sub c = true -> (2 <= length (infer_list c tok))%nat -> find_subcommand c tok = None ->
+  plain_tok tok -> pos_free c -> is_set s_allow_external c = false -> is_set s_args_negate_subs c = false ->
+  parse_loop c (tok :: rest) (lsV pos vaf) st =
+  (do st1 <- resolve_pending_ignore c st; RErr (mkerr c EInvalidSubcommand tok) st1).
+Proof. exact infer_ambiguous_rejected. Qed.
+Print Assumptions C09_infer_ambiguous_rejected.
+
+(** `--`: in a loop state with `--` seen — ANY command, tokens, counters, parser state — the loop never
+    selects a subcommand of the tree nor the help subcommand ([no_dispatch]: it ends, fails, or, only if
+    the command allows external subcommands, starts one) *)
+Theorem C09_escape_no_dispatch : forall c toks ls st, l_trailing ls = true ->
+  holds (no_dispatch c) (fun _ => True) (parse_loop c toks ls st).
+Proof. exact trailing_no_dispatch. Qed.
+Print Assumptions C09_escape_no_dispatch.
+
+(** [gline] (hence [line]) is a special case of the wide class *)
+Theorem C09_gline_is_wline : forall c b toks names ext, gline c b toks names ext -> wline c b toks names ext.
+Proof. exact gline_wline. Qed.
+Print Assumptions C09_gline_is_wline.
+
+(** the chain theorem for [wline]: per level options, single-valued positionals, optionally the values of a
+    multi-valued positional (which swallow subcommand names unless the level has
+    subcommand_precedence_over_arg); a level ends with the end of the line, with `--` and an arbitrary
+    tail, with a selecting token (name/alias — also inferred —, `--sub`, `-S`, first letter of a cluster;
+    behind multi-values only a name and only with precedence) or with an external subcommand.  No premise
+    on the selected children.  A successful parse reports exactly [names] *)
+Theorem C09_chain_wide : forall c b toks names ext, wline c b toks names ext ->
+  forall f st0 st, start_ok b st0 -> get_matches_with f c toks st0 = ROk st ->
+  chain (into_inner (mt st)) = names /\
+  match ext with
+  | Some vals => deepest (into_inner (mt st)) = [(ext_id, ext_marg vals)]
+  | None => True
+  end.
+Proof. exact chain_of_wline. Qed.
+Print Assumptions C09_chain_wide.
